@@ -40,7 +40,13 @@ var NewReaderDict = flate.NewReaderDict
 func NewReader(r io.Reader) io.ReadCloser {
 	rr := &decompressor{}
 	rr.r = r
-	rr.rBuf = bufio.NewReader(r)
+	if ur, ok := r.(*bufio.Reader); ok {
+		// use the caller's buffered reader whatever its size (as Reset does), so that
+		// nothing beyond the end of the stream is consumed from it
+		rr.rBuf = ur
+	} else {
+		rr.rBuf = bufio.NewReader(r)
+	}
 	return rr
 }
 
